@@ -99,12 +99,19 @@ fn parse_next_fails(_parser: &mut yaml_parser_t) -> Result<Event, ParserError> {
 	Err(ParserError { problem: None, context: None })
 }
 
+// the reader's own error object: a custom payload, so that "the same error" can be told from "an error of the same kind"
+#[derive(Debug)]
+struct ReaderFault;
+impl std::fmt::Display for ReaderFault { fn fmt(&self, _f: &mut std::fmt::Formatter<'_>) -> std::fmt::Result { Ok(()) } }
+impl Error for ReaderFault {}
+
 #[kani::proof]
 #[kani::unwind(3)]
 #[kani::stub(Event::parse_next, parse_next_fails)]
 fn next_event_resurfaces_stashed_reader_error() {
 	let stashed: bool = kani::any();
-	let error = if stashed { Some(io::Error::from(io::ErrorKind::ConnectionReset)) } else { None };
+	let error = if stashed { Some(io::Error::new(io::ErrorKind::ConnectionReset, ReaderFault)) } else { None };
+	let payload: *const u8 = match &error { Some(e) => match e.get_ref() { Some(r) => r as *const (dyn Error + Send + Sync) as *const u8, None => std::ptr::null() }, None => std::ptr::null() };
 	let read_state = Box::into_raw(Box::new(ReadState { reader: AnyReader { lied: false, failed: false }, bouncer: Vec::with_capacity(1), error }));
 	// a parser object that is never handed to libyaml (parse_next is stubbed, Drop is skipped with forget)
 	let raw: Box<yaml_parser_t> = unsafe { Box::new(MaybeUninit::<yaml_parser_t>::zeroed().assume_init()) };
@@ -113,7 +120,13 @@ fn next_event_resurfaces_stashed_reader_error() {
 	match r {
 		Ok(_) => assert!(false),
 		Err(e) => {
-			if stashed { assert!(e.kind() == io::ErrorKind::ConnectionReset, "the reader's own error must be re-surfaced"); }
+			if stashed {
+				assert!(e.kind() == io::ErrorKind::ConnectionReset, "the reader's own error must be re-surfaced");
+				// C12 "a reader's error text is preserved": it is the SAME error object (its payload is the reader's), not a new
+				// error that merely copies the kind
+				let now: *const u8 = match e.get_ref() { Some(r) => r as *const (dyn Error + Send + Sync) as *const u8, None => std::ptr::null() };
+				assert!(!payload.is_null() && now == payload, "the reader's error was replaced by another error (its message is lost)");
+			}
 			else { assert!(e.kind() == io::ErrorKind::InvalidData, "a pure syntax error is InvalidData"); }
 			std::mem::forget(e);
 		}
